@@ -236,6 +236,30 @@ class Splice:
                 raise ExtractError("text before first anchor in %s" % path)
 
 
+def _decode_byte_string(lit):
+    body = lit[2:-1]
+    out, i = [], 0
+    esc = {"n": 10, "r": 13, "t": 9, "\\": 92, "0": 0, '"': 34, "'": 39}
+    while i < len(body):
+        c = body[i]
+        if c == "\\":
+            n = body[i + 1]
+            if n == "x":
+                out.append(int(body[i + 2:i + 4], 16))
+                i += 4
+            elif n in esc:
+                out.append(esc[n])
+                i += 2
+            else:
+                raise ExtractError("unsupported escape in byte string %s" % lit)
+        else:
+            if ord(c) > 127:
+                raise ExtractError("non-ASCII byte string %s" % lit)
+            out.append(ord(c))
+            i += 1
+    return out
+
+
 def _blank(text):
     """whitespace of the same shape (keeps newlines so that line numbers stay aligned)"""
     return "".join(ch if ch == "\n" else " " for ch in text)
@@ -306,7 +330,7 @@ class Extraction:
                                     cur = None
                             if cur:
                                 segs.append(cur)
-                            keep = [d for d in segs if d in KEEP_DERIVES] + list(entry.get("derive_add", []))
+                            keep = [d for d in segs if d in entry.get("derive_keep", KEEP_DERIVES)] + list(entry.get("derive_add", []))
                             new = "#[derive(%s)]" % ", ".join(keep) if keep else ""
                             old = S.src[t.start:toks[k].end]
                             pad = _blank(old)
@@ -391,6 +415,15 @@ class Extraction:
                                                                          S.src[toks[i].start:toks[e].end]))
                                 removed_spans.append((i, e))
 
+        # R-bytes: byte-string literal b"…" -> &[b0u8, b1u8, …] (same type &[u8; N], same value)
+        if "R-bytes" in self.rules:
+            for i in idxs:
+                t = toks[i]
+                if t.kind == "str" and t.text.startswith('b"') and not any(a <= i <= b for a, b in removed_spans):
+                    bs = _decode_byte_string(t.text)
+                    edits.append((t.start, t.end, "&[" + ", ".join("%du8" % b for b in bs) + "]"))
+                    self.count("R-bytes", "%s:%d %s" % (S.rel, line_of(S.src, t.start), t.text))
+
         # token-sequence replacements (R-shim / R-async / R-mono are expressed this way)
         for rep in self.spec.get("replace", []):
             if "only" in rep and it.name not in rep["only"]:
@@ -428,6 +461,29 @@ class Extraction:
         if pos < hi_pos:
             out.append((S.src[pos:hi_pos], S.rel, line_of(S.src, pos)))
         return out
+
+    def _derive_from(self, it):
+        """R-derive: the `impl From<T> for Enum` that thiserror generates for each `#[from]` variant"""
+        S, toks = it.src, it.src.toks
+        out = []
+        i = it.kw + 2
+        while toks[i].text != "{":
+            i += 1
+        end = S.br[i]
+        j = i + 1
+        while j < end:
+            t = toks[j]
+            if t.kind == "ident" and toks[j + 1].text == "(" and toks[j - 1].text in ("{", ",", "]"):
+                close = S.br[j + 1]
+                inner = toks[j + 2:close]
+                if len(inner) > 4 and inner[0].text == "#" and inner[2].text == "from":
+                    ty = S.src[inner[4].start:toks[close - 1].end]
+                    out.append("impl From<%s> for %s {\n    #[verifier::external_body]\n    fn from(e: %s) -> Self { %s::%s(e) }\n}\n"
+                               % (ty, it.name, ty, it.name, t.text))
+                    self.count("R-derive", "impl From<%s> for %s (thiserror #[from])" % (ty, it.name))
+                j = close
+            j += 1
+        return "".join(out)
 
     def _check_log_calls(self, S, a, b, fn):
         toks = S.toks
@@ -649,6 +705,8 @@ class Extraction:
             self.chunks.append(("\n", None, None))
             if it.impl_header:
                 self.chunks.append(("}\n", None, None))
+            if entry.get("derive_from") and it.kind == "enum":
+                self.chunks.append((self._derive_from(it), None, None))
         self.chunks.append(("\n} // verus!\nfn main() {}\n", None, None))
         return self
 
